@@ -139,23 +139,17 @@ func init() {
 			return nil, true
 		}
 		th.wake = &wakeInfo{}
-		st.block(th, nil)
+		st.block(th, waitNone, 0)
 		return nil, false
 	}
 	// vQuiesce blocks until every other goroutine is finished or blocked.
 	h["vQuiesce"] = func(st *State, th *Thread, a []Value, _ ssa.Instruction) (Value, bool) {
-		quiet := func() bool {
-			for _, t := range st.threads {
-				if t != th && st.runnable(t) {
-					return false
-				}
-			}
-			return true
-		}
-		if quiet() {
+		th.wkind = waitQuiet
+		if st.waitSatisfied(th) {
+			th.wkind = waitNone
 			return nil, true
 		}
-		st.block(th, quiet)
+		st.block(th, waitQuiet, 0)
 		return nil, false
 	}
 	h["vThread"] = func(st *State, th *Thread, a []Value, _ ssa.Instruction) (Value, bool) {
@@ -321,7 +315,7 @@ func init() {
 			st.storeBits(addr, 4, st.c.Const(32, 1))
 			return nil, true
 		}
-		st.block(th, func() bool { x := st.loadBits(addr, 4); return x.IsConst() && x.C == 0 })
+		st.block(th, waitMutex, addr)
 		return nil, false
 	})
 	reg("(*sync.Mutex).Unlock", func(st *State, th *Thread, a []Value, _ ssa.Instruction) (Value, bool) {
@@ -355,11 +349,10 @@ func init() {
 	})
 	reg("(*sync.WaitGroup).Wait", func(st *State, th *Thread, a []Value, _ ssa.Instruction) (Value, bool) {
 		addr := st.constAddr(tw(a[0]), "waitgroup")
-		zero := func() bool { x := st.loadBits(addr, 8); return x.IsConst() && x.C == 0 }
-		if zero() {
+		if x := st.loadBits(addr, 8); x.IsConst() && x.C == 0 {
 			return nil, true
 		}
-		st.block(th, zero)
+		st.block(th, waitWG, addr)
 		return nil, false
 	})
 	visibleIntrinsics["(*sync.WaitGroup).Add"] = true
@@ -516,15 +509,18 @@ func (st *State) symInput(name string, w int) *Term {
 // coin: one fresh forked boolean; at most MaxLevel consecutive trues per name.
 func (st *State) coin(name string) *Term {
 	k := st.coinIdx[name]
-	st.coinIdx[name] = k + 1
 	key := fmt.Sprintf("coin_%s_%d", name, k)
 	if st.coinRun[name] >= st.p.Cfg.MaxLevel {
+		st.coinIdx[name] = k + 1
 		st.coinRun[name] = 0
 		st.inputs[key] = 0
 		return st.c.False
 	}
-	// choice 0 = tails (false) first: most nodes are level 0
-	if st.choose(2) == 1 {
+	// choice 0 = tails (false) first: most nodes are level 0. The decision comes before any state change
+	// so that a state forked at the decision can re-execute this step.
+	heads := st.choose(2) == 1
+	st.coinIdx[name] = k + 1
+	if heads {
 		st.coinRun[name]++
 		st.inputs[key] = 1
 		return st.c.True
